@@ -137,6 +137,7 @@ def solve_one(job):
         if "FloatingPoint" in smt2 and use_cvc5:
             return (idx,) + _race([("z3-5.1.0", z3cmd(tsec)), ("cvc5-1.0.3", cvccmd)], tsec)
         secs, reason, backend = 0.0, "", "z3-5.1.0"
+        inst_sat = False
         if has_q:
             # most obligations need no quantified hypothesis at all: try without them first (only unsat counts)
             t0 = time.time()
@@ -164,12 +165,13 @@ def solve_one(job):
                 secs += s2
                 if r2 == "unsat":
                     return idx, r2, secs, b2 + "(ground-instantiated)", ""
+                inst_sat = (r2 == "sat")
         members = [("z3-5.1.0", z3cmd(tsec))] + ([("cvc5-1.0.3", cvccmd)] if use_cvc5 else [])
         r, s1, backend, reason = _race(members, tsec)
         secs += s1
         if r != "unknown":
             return idx, r, secs, backend, reason
-        return idx, "unknown", secs, backend, reason
+        return idx, "unknown", secs, backend, ("[ground-instance-model-exists] " if inst_sat else "") + reason
     finally:
         for p in paths:
             try:
@@ -200,6 +202,57 @@ def discharge(obligations, timeout_ms=30000, use_cvc5=True, jobs=None):
         ob = obligations[idx]
         ob.result, ob.seconds, ob.backend = r, secs, backend
         ob.info["reason"] = reason
+        if r == "unknown" and "[ground-instance-model-exists]" in reason and not ob.expect_fail:
+            t0 = time.time()
+            try:
+                m = confirm_candidate(ob)
+            except z3.Z3Exception:
+                m = None
+            ob.seconds += time.time() - t0
+            if m is not None:
+                ob.result = "sat"
+                ob.backend = "z3-5.1.0 (model of the ground instances, validated against every quantified hypothesis)"
+                ob.model = m
+
+
+def confirm_candidate(ob, timeout_ms=20000):
+    """The full query is undecided because of quantified hypotheses, but its ground-instantiated weakening has a model.
+    Obtain that model and VALIDATE it: every quantified hypothesis, evaluated under the model's interpretation of all
+    constants / arrays / functions, must have no falsifying instance.  A validated model is a genuine counter-model of
+    the obligation (result becomes ``sat``); otherwise the obligation stays undecided."""
+    fs = list(ob.pc) + [z3.Not(ob.goal)]
+    try:
+        inst = instantiate_quantifiers(fs, budget_s=10.0)
+    except z3.Z3Exception:
+        return None
+    if not inst:
+        return None
+    s = z3.Solver()
+    s.set("timeout", int(timeout_ms))
+    for f in inst:
+        s.add(f)
+    if s.check() != z3.sat:
+        return None
+    m = s.model()
+    for f in fs:
+        if not any(z3.is_quantifier(e) for e in _walk([f])):
+            v = m.eval(f, model_completion=True)
+            if z3.is_false(v):
+                return None
+            if not z3.is_true(v):
+                c = z3.Solver()
+                c.set("timeout", 5000)
+                c.add(z3.Not(v))
+                if c.check() != z3.unsat:
+                    return None
+            continue
+        v = m.eval(f, model_completion=True)
+        c = z3.Solver()
+        c.set("timeout", 10000)
+        c.add(z3.Not(v))
+        if c.check() != z3.unsat:
+            return None
+    return m
 
 
 def obligation_smt2(ob, ack=True):
